@@ -110,6 +110,21 @@ def run_remap(shard, ctx, origin_ref):
         for key, asm in outcome["out_obj"].items():
             origin_ref["origin"] = f"remap:{case['gen']}"
             format_agp(asm, io.StringIO())
+        # scaffolds whose length was already asked for, then joined without a gap (the public
+        # append_scaffold), then written: the object still ends at the scaffold's length
+        if len(case["input"]) >= 2 and hash(str(case.get("id"))) % 4 == 0:
+            from tola.assembly.assembly import Assembly
+
+            from vf.core import build_scaffolds
+
+            objs = build_scaffolds(case["input"])
+            _ = [o.length for o in objs]
+            objs[0].append_scaffold(objs[1])
+            _ = objs[0].length
+            if len(objs) > 2:
+                objs[0].append_scaffold(objs[2])
+            origin_ref["origin"] = "edited-scaffolds"
+            format_agp(Assembly("edited", scaffolds=[objs[0], *objs[3:]]), io.StringIO())
 
     workloads.run_remap_batch(shard, ctx, kinds=tuple(shard["kinds"]), oracle=oracle, opts={"terminal_gaps": True})
 
@@ -308,6 +323,7 @@ def gates(c, tier):
         "remap:pv:agp-texts": 500,
         "remap:tag:agp-texts": 500,
         "remap:hostile:agp-texts": 100,
+        "edited-scaffolds:agp-texts": 500,
         "fasta-cache:agp-texts": 800,
         "fasta:cache-files": 800,
         "asm-format:agp-texts": 10,
